@@ -535,8 +535,10 @@ def compare_one(model, impl):
                     'model': ' '.join(mt[max(0, j - 6):j + 4]) if j < len(mt) else '<end>',
                     'impl': ' '.join(it[max(0, j - 6):j + 4]) if j < len(it) else '<end>'}
         kind = 'T2' if (ml.startswith('T\t') or il.startswith('T\t')) else 'T1'
+        # does the expansion differ as well, or only the front-end dump (an internal representation)?
+        t2_also = [l for l in m2 if l.startswith('T\t')] != [l for l in impl if l.startswith('T\t')]
         return {'status': 'diff', 'kind': kind, 'region': 'FE', 'line': k, 'model': ml[:300], 'impl': il[:300],
-                'fe_parts': sorted(fe_parts(m2, impl))}
+                'fe_parts': sorted(fe_parts(m2, impl)), 't2_also': t2_also}
     return {'status': 'same', 'notes': notes}
 
 def _edge_fields(l):
